@@ -641,6 +641,46 @@ pub fn run_c15(ctx: &mut Ctx) {
             ctx.count("flood-histories");
         }
     }
+    // validated peers stay validated however long nothing happens: idle polls hours, days and years
+    // apart (following the agent's own idle wake-ups, and in big jumps)
+    {
+        let mut rng = ctx.rng("long-idle", 0);
+        for k in 0..ctx.n(32, 320) {
+            let mut ops = vec![Op::Incoming { request: true, tid: 0, from: 1 }, req(1, 2, Sealing::None, 3), Op::Response { tid: 1, from: 2, error: false, seal: RespSeal::Unsigned, fp: false }, Op::Poll(PollAt::Now)];
+            match k % 4 {
+                0 => {
+                    for _ in 0..30 {
+                        ops.push(Op::Poll(PollAt::AtWait));
+                    }
+                }
+                1 => {
+                    ops.push(Op::Advance(90_000_000));
+                    ops.push(Op::Poll(PollAt::Now));
+                    ops.push(Op::Advance(90_000_000));
+                    ops.push(Op::Poll(PollAt::Now));
+                }
+                2 => {
+                    ops.push(Op::Advance(*rng.pick(&[86_400_000u64, 86_400_001, 604_800_000, 31_536_000_000, 315_360_000_000])));
+                    ops.push(Op::Poll(PollAt::Now));
+                    ops.push(Op::Poll(PollAt::AtWait));
+                }
+                _ => {
+                    // traffic from one peer keeps coming, the other one is silent for days
+                    for _ in 0..5 {
+                        ops.push(Op::Advance(40_000_000));
+                        ops.push(Op::Incoming { request: false, tid: 3, from: 1 });
+                        ops.push(Op::Poll(PollAt::Now));
+                    }
+                }
+            }
+            ops.push(Op::Incoming { request: false, tid: 2, from: 4 });
+            ops.push(Op::Poll(PollAt::AtWait));
+            let h = History { tcp: k % 8 >= 4, remote0: None, remote_addr: None, ops };
+            run_plain(ctx, &h);
+            ctx.count("long-idle-histories");
+        }
+        ctx.require("long-idle-histories", 32);
+    }
     ctx.require("flood-histories", 7);
     ctx.require("special-source-address-histories", 200);
     ctx.require("many-peers-histories", 100);
